@@ -307,7 +307,7 @@ class Gen:
         return self.add(Form("loop", "for i: %s in 1..%d repeat %s := %s + i;" % (self.d.SI, k, nm, nm)))
 
     # ---- rejected forms (state must be unchanged afterwards) ---------------------------------
-    def b_any(self):
+    def b_any(self, only=None):
         r = self.rng
         SI = self.d.SI
         opts = []
@@ -333,6 +333,8 @@ class Gen:
         # (a second definition with the signature of an existing function is NOT in the
         # catalogue: the loop answers it with an interactive "Redefine? (y/n)" question that
         # eats the following input - a dialogue, not a rejection, and outside the property)
+        if only:
+            opts = [o for o in opts if o in only]
         k = r.choice(opts)
         if k == "assign-const":
             return self.add(Form("bad:" + k, "%s := %d;" % (r.choice(sorted(self.consts)), r.range(1, 99)), good=False))
@@ -440,6 +442,10 @@ class Gen:
                 if r.chance(1, 3):
                     self.c_any()
                     last_ctl = True
+                elif r.chance(1, 4):
+                    # ... or a form that is rejected before scope binding is reached (no parse,
+                    # syntax checks, macro expansion): each such exit must undo the leftovers too
+                    self.b_any(only=("bad-syntax", "dup-param", "macro-argc"))
             elif x < bad_share + 8 and not last_ctl:
                 self.c_any()
                 last_ctl = True
